@@ -61,7 +61,7 @@ def main(a):
         finally:
             shutil.rmtree(scratch, ignore_errors=True)
     os.makedirs(os.path.join(M.VERIF, "reports"), exist_ok=True)
-    out = os.path.join(M.VERIF, "reports", "sensitivity.json")
+    out = os.environ.get("VERIF_SENS_OUT") or os.path.join(M.VERIF, "reports", "sensitivity.json")
     prev = {}
     if os.path.exists(out) and a.props:
         prev = json.load(open(out))
